@@ -285,3 +285,27 @@ Section Consistent.
         constructor; [|constructor]. now apply IH1.
   Qed.
 End Consistent.
+
+(* ------------------------------------------------------------------------------------------ *)
+(** * The seek issued by Weight::explain on its fresh scorer
+
+    A fresh scorer stands on the clause's first matching document of the segment.  DocSet::seek(target)
+    requires target >= doc() (TermScorer and PhraseScorer debug_assert it).  TermWeight::explain tests
+    `scorer.doc() > doc` first; PhraseWeight, ConstWeight and BooleanWeight::explain seek unconditionally. *)
+Definition explain_seek_calls (guarded : bool) (first target : N) : list (N * N) :=   (* (doc(), target) of each seek *)
+  if guarded && (target <? first)%N then [] else [(first, target)].
+Definition seek_pre (c : N * N) : bool := (fst c <=? snd c)%N.
+
+Lemma guarded_explain_respects_seek_contract first target :
+  forallb seek_pre (explain_seek_calls true first target) = true.
+Proof.
+  unfold explain_seek_calls. cbn [andb]. destruct (target <? first)%N eqn:E; [reflexivity|].
+  cbn [forallb]. unfold seek_pre. cbn [fst snd]. apply N.ltb_ge in E. rewrite andb_true_r. now apply N.leb_le.
+Qed.
+
+Lemma unguarded_explain_violates_iff first target :
+  forallb seek_pre (explain_seek_calls false first target) = false <-> known_f42 target [first] = true.
+Proof.
+  unfold explain_seek_calls, known_f42. cbn [andb forallb existsb]. unfold seek_pre. cbn [fst snd].
+  rewrite andb_true_r, orb_false_r, N.leb_gt, N.ltb_lt. tauto.
+Qed.
